@@ -118,7 +118,7 @@ def topologies():
     s["jobs"]["job2"] = {"server": "srv1", "data_stored": (1, "MB")}
     s["steps"]["step1"] = {"jobs": ["job1", "job2", "job1"], "user_time_spent": (61, "min")}
     s["steps"]["step2"] = {"jobs": ["job2"], "user_time_spent": (10, "min")}
-    s["journeys"]["uj1"] = {"steps": ["step1", "step2"]}
+    s["journeys"]["uj1"] = {"steps": ["step2", "step1"]}      # job1 comes after a step shorter than one hour
     s["networks"]["net1"] = {"bei": (0.12, "kWh/GB")}
     s["countries"]["c1"] = {"tz": "kathmandu", "aci": (635, "g/kWh")}
     s["devices"]["dev1"] = {"power": (1, "W"), "cff": (30, "kg")}
